@@ -304,7 +304,7 @@ def close_text(a, b):
         except ValueError:
             return False
         digits = max(len(x.partition(".")[2]), len(y.partition(".")[2]))
-        if abs(fx - fy) > 10 ** (-digits) * 1.0000001:
+        if not (abs(fx - fy) <= 10 ** (-digits) * 1.0000001):
             return False
     return True
 
